@@ -269,6 +269,23 @@ def check_item(spec):
         finding("constructor-raises", "%s: %s" % (type(e).__name__, str(e)[:100]))
         return st.into(res)
     if ob == "decode":
+        # decode_counts on a measure-all histogram: the helper qubits split each outcome over
+        # several raw strings; outcomes are aggregated before any threshold is applied (concrete)
+        try:
+            n_out = len(A.output_qubits)
+            nq_all = A.circuit().num_qubits
+            low = "".join("1" if (j * 3 + 1) % 2 else "0" for j in range(n_out))
+            hi = nq_all - n_out
+            if hi >= 1:
+                k1, k2 = "0" * hi + low, "1" + "0" * (hi - 1) + low
+                want = A.decode_output(low)
+                for thr in (None, 600):
+                    got = A.decode_counts({k1: 500, k2: 524}, discard_lower=thr)
+                    if got != {want: 1024}:
+                        finding("decode-counts", "decode_counts({%s: 500, %s: 524}, discard_lower=%s) = %r, expected {%r: 1024}" % (k1, k2, thr, got, want))
+                        break
+        except Exception as e:
+            finding("decode-counts", "decode_counts raises %s: %s" % (type(e).__name__, str(e)[:80]))
         tw = symx.twin()
         cls = {"dj": "DeutschJozsa", "bv": "BernsteinVazirani", "simon": "Simon"}[spec["algo"]]
         for kind, what in algo.decode_check(tw, cls, A, qf, st, expect="dj" if spec["algo"] == "dj" else "value"):
